@@ -16,6 +16,9 @@ import (
 	"strings"
 	"sync"
 
+	"github.com/cosmos72/gomacro/fast"
+	"github.com/cosmos72/gomacro/gls"
+
 	"verif/harness/core"
 	"verif/harness/h"
 	"verif/harness/sched"
@@ -46,6 +49,26 @@ type c10Op struct {
 type c10Prog struct {
 	Caps    [2]int    `json:"caps"`
 	Threads [][]c10Op `json:"threads"` // Threads[0] = main thread, others are started with `go` in order
+	// Shared: goroutines 1 and 2 run the SAME function value (one compiled body, `go w(1, c0, c1); go w(2, c1, c0)`):
+	// Threads[2] is then Threads[1] with the two channels swapped
+	Shared bool `json:"shared_body,omitempty"`
+}
+
+func c10Swap(ops []c10Op) []c10Op {
+	out := make([]c10Op, len(ops))
+	for i, o := range ops {
+		o.Ch ^= 1
+		cs := make([]c10Case_, len(o.Cases))
+		for j, k := range o.Cases {
+			k.Ch ^= 1
+			cs[j] = k
+		}
+		if len(cs) > 0 {
+			o.Cases = cs
+		}
+		out[i] = o
+	}
+	return out
 }
 
 func (o c10Op) String() string {
@@ -86,41 +109,50 @@ func (p *c10Prog) String() string {
 		}
 		ts = append(ts, fmt.Sprintf("T%d[%s]", i, strings.Join(os, "; ")))
 	}
-	return fmt.Sprintf("caps=%v %s", p.Caps, strings.Join(ts, " "))
+	sh := ""
+	if p.Shared {
+		sh = " shared-body"
+	}
+	return fmt.Sprintf("caps=%v%s %s", p.Caps, sh, strings.Join(ts, " "))
 }
 
 // Source renders the program as interpreted Go.
 func (p *c10Prog) Source() string {
 	var sb strings.Builder
 	fmt.Fprintf(&sb, "func Prog() {\n\tc0 := make(chan int, %d)\n\tc1 := make(chan int, %d)\n\t_ = c0\n\t_ = c1\n\tx := 0\n\tres := make([]int, %d)\n", p.Caps[0], p.Caps[1], len(p.Threads))
+	chn := func(ch int) string { return fmt.Sprintf("c%d", ch) }
+	tis := func(ti int) string { return fmt.Sprint(ti) }
 	body := func(ti int, ops []c10Op, indent string) {
 		fmt.Fprintf(&sb, "%sdefer func() {\n%s\tif e := recover(); e != nil {\n%s\t\tPan(e)\n%s\t}\n%s}()\n", indent, indent, indent, indent, indent)
-		if ti == 1 {
+		if ti == 1 && !p.Shared {
 			fmt.Fprintf(&sb, "%sx = 7\n", indent)
 		}
 		for i, o := range ops {
-			fmt.Fprintf(&sb, "%sP(%d)\n", indent, i)
+			if o.Kind != "select" {
+				// for a select the scheduling point is inside the interpreter, between filling the cases and executing the select
+				fmt.Fprintf(&sb, "%sP(%d)\n", indent, i)
+			}
 			switch o.Kind {
 			case "send":
-				fmt.Fprintf(&sb, "%sc%d <- %d\n%sEv(\"sent\", %d, true)\n", indent, o.Ch, o.Val, indent, o.Val)
+				fmt.Fprintf(&sb, "%s%s <- %d\n%sEv(\"sent\", %d, true)\n", indent, chn(o.Ch), o.Val, indent, o.Val)
 			case "recv":
-				fmt.Fprintf(&sb, "%sEv(\"recv\", <-c%d, true)\n", indent, o.Ch)
+				fmt.Fprintf(&sb, "%sEv(\"recv\", <-%s, true)\n", indent, chn(o.Ch))
 			case "recv2":
-				fmt.Fprintf(&sb, "%s{\n%s\tv, ok := <-c%d\n%s\tEv(\"recv2\", v, ok)\n%s}\n", indent, indent, o.Ch, indent, indent)
+				fmt.Fprintf(&sb, "%s{\n%s\tv, ok := <-%s\n%s\tEv(\"recv2\", v, ok)\n%s}\n", indent, indent, chn(o.Ch), indent, indent)
 			case "close":
-				fmt.Fprintf(&sb, "%sclose(c%d)\n%sEv(\"closed\", 0, true)\n", indent, o.Ch, indent)
+				fmt.Fprintf(&sb, "%sclose(%s)\n%sEv(\"closed\", 0, true)\n", indent, chn(o.Ch), indent)
 			case "range":
-				fmt.Fprintf(&sb, "%sfor v := range c%d {\n%s\tEv(\"range\", v, true)\n%s\tP(%d)\n%s}\n%sEv(\"range-end\", 0, false)\n", indent, o.Ch, indent, indent, i, indent, indent)
+				fmt.Fprintf(&sb, "%sfor v := range %s {\n%s\tEv(\"range\", v, true)\n%s\tP(%d)\n%s}\n%sEv(\"range-end\", 0, false)\n", indent, chn(o.Ch), indent, indent, i, indent, indent)
 			case "select":
 				fmt.Fprintf(&sb, "%sselect {\n", indent)
 				for ci, k := range o.Cases {
 					switch {
 					case k.Send:
-						fmt.Fprintf(&sb, "%scase c%d <- %d:\n%s\tEv(\"sel%d-sent\", %d, true)\n", indent, k.Ch, k.Val, indent, ci, k.Val)
+						fmt.Fprintf(&sb, "%scase %s <- %d:\n%s\tEv(\"sel%d-sent\", %d, true)\n", indent, chn(k.Ch), k.Val, indent, ci, k.Val)
 					case k.Ok:
-						fmt.Fprintf(&sb, "%scase v, ok := <-c%d:\n%s\tEv(\"sel%d-recv2\", v, ok)\n", indent, k.Ch, indent, ci)
+						fmt.Fprintf(&sb, "%scase v, ok := <-%s:\n%s\tEv(\"sel%d-recv2\", v, ok)\n", indent, chn(k.Ch), indent, ci)
 					default:
-						fmt.Fprintf(&sb, "%scase v := <-c%d:\n%s\tEv(\"sel%d-recv\", v, true)\n", indent, k.Ch, indent, ci)
+						fmt.Fprintf(&sb, "%scase v := <-%s:\n%s\tEv(\"sel%d-recv\", v, true)\n", indent, chn(k.Ch), indent, ci)
 					}
 				}
 				if o.Default {
@@ -128,13 +160,24 @@ func (p *c10Prog) Source() string {
 				}
 				fmt.Fprintf(&sb, "%s}\n", indent)
 			}
-			fmt.Fprintf(&sb, "%sres[%d]++\n", indent, ti)
+			fmt.Fprintf(&sb, "%sres[%s]++\n", indent, tis(ti))
 		}
 	}
-	for ti := 1; ti < len(p.Threads); ti++ {
-		sb.WriteString("\tgo func() {\n")
-		body(ti, p.Threads[ti], "\t\t")
-		sb.WriteString("\t}()\n")
+	if p.Shared {
+		// one function value, run by two goroutines on swapped channels
+		chn = func(ch int) string { return []string{"a", "b"}[ch] }
+		tis = func(int) string { return "ti" }
+		sb.WriteString("\tw := func(ti int, a chan int, b chan int) {\n")
+		body(1, p.Threads[1], "\t\t")
+		sb.WriteString("\t}\n\tx = 7\n\tgo w(1, c0, c1)\n\tgo w(2, c1, c0)\n")
+		chn = func(ch int) string { return fmt.Sprintf("c%d", ch) }
+		tis = func(ti int) string { return fmt.Sprint(ti) }
+	} else {
+		for ti := 1; ti < len(p.Threads); ti++ {
+			sb.WriteString("\tgo func() {\n")
+			body(ti, p.Threads[ti], "\t\t")
+			sb.WriteString("\t}()\n")
+		}
 	}
 	sb.WriteString("\tfunc() {\n")
 	body(0, p.Threads[0], "\t\t")
@@ -195,6 +238,15 @@ func c10ThreadIndex(name string) int {
 	return k
 }
 
+// opIndex: the index of the operation a parked thread is about to perform. Points placed in the program text
+// carry it; the point inside the interpreter's select does not, there the model's own program counter is used.
+func (m *c10Model) opIndex(name string, op sched.Op) int {
+	if i, ok := op.Arg.(int); ok {
+		return i
+	}
+	return m.pc[name]
+}
+
 func (m *c10Model) opOf(name string, idx int) *c10Op {
 	ti := c10ThreadIndex(name)
 	if ti < 0 || ti >= len(m.prog.Threads) || idx < 0 || idx >= len(m.prog.Threads[ti]) {
@@ -250,6 +302,8 @@ func (m *c10Model) Enabled(parked map[int]sched.Op) []sched.Action {
 		switch op.Kind {
 		case "start":
 			acts = append(acts, sched.Action{Tids: []int{tid}, Label: name + ":start", Data: c10Act{kind: "start"}})
+		case "alloc":
+			acts = append(acts, sched.Action{Tids: []int{tid}, Label: name + ":" + op.Kind, Data: c10Act{kind: "start"}})
 		case "join":
 			others := 0
 			for t2, o2 := range parked {
@@ -260,8 +314,8 @@ func (m *c10Model) Enabled(parked map[int]sched.Op) []sched.Action {
 			if others == 0 {
 				acts = append(acts, sched.Action{Tids: []int{tid}, Label: name + ":join", Data: c10Act{kind: "join"}})
 			}
-		case "op":
-			o := m.opOf(name, op.Arg.(int))
+		case "op", "in-select":
+			o := m.opOf(name, m.opIndex(name, op))
 			if o == nil {
 				continue
 			}
@@ -311,6 +365,21 @@ func (m *c10Model) Enabled(parked map[int]sched.Op) []sched.Action {
 	return acts
 }
 
+// advance moves the model's program counter of a thread past the operation being fired
+// (a range operation stays current until its channel is closed and drained: recomputed at each firing).
+func (m *c10Model) advance(name string, idx int, o *c10Op, d c10Act) {
+	if o.Kind == "range" {
+		c := m.ch[o.Ch]
+		if d.kind == "solo" && len(c.q) == 0 && c.closed {
+			m.pc[name] = idx + 1
+		} else {
+			m.pc[name] = idx
+		}
+		return
+	}
+	m.pc[name] = idx + 1
+}
+
 func (m *c10Model) predict(name, ev string) { m.want[name] = append(m.want[name], ev) }
 
 func evs(kind string, v int, ok bool) string { return fmt.Sprintf("%s(%d,%v)", kind, v, ok) }
@@ -355,8 +424,10 @@ func (m *c10Model) Fire(a sched.Action, parked map[int]sched.Op) {
 	case "start", "join":
 		return
 	}
-	o := m.opOf(name, parked[tid].Arg.(int))
+	idx := m.opIndex(name, parked[tid])
+	o := m.opOf(name, idx)
 	m.selCas[tid] = d.cas
+	m.advance(name, idx, o, d)
 	switch d.kind {
 	case "default":
 		m.predict(name, evs("sel-default", 0, false))
@@ -391,8 +462,10 @@ func (m *c10Model) Fire(a sched.Action, parked map[int]sched.Op) {
 	case "pair":
 		tid2 := a.Tids[1]
 		name2 := m.s.ThreadName(tid2)
-		o2 := m.opOf(name2, parked[tid2].Arg.(int))
+		idx2 := m.opIndex(name2, parked[tid2])
+		o2 := m.opOf(name2, idx2)
 		m.selCas[tid2] = d.cas2
+		m.advance(name2, idx2, o2, d)
 		m.applySent(name, o, d.cas, d.offer.val)
 		m.applyRecv(name2, o2, d.cas2, d.offer.val, true)
 	}
@@ -474,6 +547,9 @@ func (m *c10Model) hooks(s *sched.S) (P func(int), Ev func(string, int, bool), P
 		if _, isAbort := e.(c10Abort); isAbort {
 			return
 		}
+		if _, isAbort := e.(sched.SelectAborted); isAbort {
+			return
+		}
 		name := s.Name()
 		m.mu.Lock()
 		m.got[name] = append(m.got[name], "panic:"+h.PanicClass(e))
@@ -495,7 +571,11 @@ func (m *c10Model) hooks(s *sched.S) (P func(int), Ev func(string, int, bool), P
 // c10ExecInterp runs one schedule of p on the interpreter ir (which has Prog compiled).
 func c10ExecInterp(p *c10Prog, ir *twin.Interp, prefix []int) c10Outcome {
 	m := newC10Model(p)
-	sched.Install(sched.Callbacks{Select: func(s *sched.S, tid int, cases []r.SelectCase) []r.SelectCase { return m.selectMask(tid, cases) }})
+	guard := newC10FrameGuard()
+	sched.Install(sched.Callbacks{SelectPoints: true,
+		Select:  func(s *sched.S, tid int, cases []r.SelectCase) []r.SelectCase { return m.selectMask(tid, cases) },
+		Alloc:   guard.alloc,
+		FreeEnv: guard.free})
 	var perr interface{}
 	x := sched.RunOnce(m, prefix, 200, func(s *sched.S) {
 		m.mu.Lock()
@@ -508,9 +588,14 @@ func c10ExecInterp(p *c10Prog, ir *twin.Interp, prefix []int) c10Outcome {
 	})
 	out := c10Outcome{x: x, want: m.want, got: m.got, fin: m.fin}
 	if perr != nil {
-		if _, isAbort := perr.(c10Abort); !isAbort {
+		_, isAbort := perr.(c10Abort)
+		_, isAbort2 := perr.(sched.SelectAborted)
+		if !isAbort && !isAbort2 {
 			out.err = fmt.Sprint("main thread panicked: ", perr)
 		}
+	}
+	if v := guard.violations(); len(v) > 0 {
+		out.err += " " + strings.Join(v, "; ")
 	}
 	return out
 }
@@ -617,6 +702,40 @@ func c10Fmt(m map[string][]string) string {
 	return strings.Join(out, " ")
 }
 
+// c10FrameGuard: invariants on the frames handed out by the interpreter while goroutines run
+// (the record of a frame belongs to the goroutine that allocates it; a frame is never in use by two live threads).
+type c10FrameGuard struct {
+	mu    sync.Mutex
+	inuse map[*fast.Env]int
+	viol  []string
+}
+
+func newC10FrameGuard() *c10FrameGuard { return &c10FrameGuard{inuse: map[*fast.Env]int{}} }
+
+func (g *c10FrameGuard) alloc(s *sched.S, tid int, env *fast.Env, run *fast.Run, runGoid uintptr) {
+	g.mu.Lock()
+	defer g.mu.Unlock()
+	if runGoid != gls.GoID() {
+		g.viol = append(g.viol, fmt.Sprintf("thread %s allocates a frame that uses the runtime record of another goroutine", s.ThreadName(tid)))
+	}
+	if prev, busy := g.inuse[env]; busy && prev != tid && s.Alive(prev) {
+		g.viol = append(g.viol, fmt.Sprintf("frame handed out to thread %s while thread %s still uses it", s.ThreadName(tid), s.ThreadName(prev)))
+	}
+	g.inuse[env] = tid
+}
+
+func (g *c10FrameGuard) free(env *fast.Env) {
+	g.mu.Lock()
+	delete(g.inuse, env)
+	g.mu.Unlock()
+}
+
+func (g *c10FrameGuard) violations() []string {
+	g.mu.Lock()
+	defer g.mu.Unlock()
+	return append([]string{}, g.viol...)
+}
+
 // ---- program enumeration ---------------------------------------------------------------------
 
 func c10Alphabet(thorough bool) []c10Op {
@@ -676,6 +795,15 @@ func c10Programs(c *core.Ctx) []c10Prog {
 		for _, mn := range mains {
 			for _, s1 := range scripts {
 				progs = append(progs, c10Prog{Caps: caps, Threads: [][]c10Op{mn, s1}})
+			}
+		}
+		// shared body: two goroutines run one function value on swapped channels (main without own ops, or one op)
+		for mi, mn := range mains {
+			if c.Quick() && mi > 0 {
+				break
+			}
+			for _, s1 := range scripts {
+				progs = append(progs, c10Prog{Caps: caps, Shared: true, Threads: [][]c10Op{mn, s1, c10Swap(s1)}})
 			}
 		}
 		// three threads: main (no own ops in quick) + two spawned, unordered
@@ -763,6 +891,9 @@ func c10Run(c *core.Ctx) {
 			}
 			if c10Fmt(n.got) != c10Fmt(n.want) || n.x.Deadlock != x.Deadlock {
 				panic(fmt.Sprintf("HARNESS: reference model disagrees with real Go channels for %s schedule %v: model %s / go %s", p, x.Choices, c10Fmt(n.want), c10Fmt(n.got)))
+			}
+			for bi := range x.Blocked {
+				x.Blocked[bi] = strings.Replace(x.Blocked[bi], "@in-select", "@op", 1)
 			}
 			gi, gn := c10Fmt(o.got), c10Fmt(n.got)
 			if gi != "" {
